@@ -577,6 +577,7 @@ Not decided: doc-comment attribution (excluded by the property), nom's internals
         }
     }
     hyphen_runs(m, ctx);
+    word_sequences(m, ctx);
     balanced_scanner(m, ctx);
     mandatory_whitespace(m, ctx);
 }
@@ -770,6 +771,36 @@ fn balanced_scanner(m: &Model, ctx: &mut Ctx) {
 /// at least one whitespace character (multispace1, space1, line_ending, newline, tab, char(' ') ...) is legitimate only
 /// as one alternative of a trivia loop (`many0(alt((comment, multispace1)))`); used in sequence after a token it rejects
 /// `DEFAULT-1`, `DEFAULT/* c */5` and every other layout without a blank at that place.
+/// C13.words: a reserved word sequence (`BIT STRING`, `WITH COMPONENTS`, `DEFINED BY`, ..) is a sequence of tokens; matched
+/// as one literal with a blank inside (`tag("BIT STRING")`) it fixes the layout between the words to exactly that blank.
+/// Every `tag`/`tag_no_case` argument of the lexer is resolved (literal or constant) and must not contain white space.
+fn word_sequences(m: &Model, ctx: &mut Ctx) {
+    use crate::rules::util::{const_resolver, lit_of};
+    let consts = const_resolver(m);
+    let mut sites = 0;
+    for f in m.fns.iter().filter(|f| f.krate == "rasn-compiler" && f.module.starts_with("lexer") && !f.module.contains("tests")) {
+        for c in model::calls_in(&f.block) {
+            let name = model::callee_name(&c).unwrap_or_default();
+            if name != "tag" && name != "tag_no_case" {
+                continue;
+            }
+            let Some(a) = c.args.first() else { continue };
+            let lit = match lit_of(a) {
+                Some(crate::eval::Val::Str(s)) => Some(s),
+                _ => match consts(&tok(a)) { Some(crate::eval::Val::Str(s)) => Some(s), _ => None },
+            };
+            let Some(lit) = lit else { continue };
+            sites += 1;
+            ctx.oblige("C13.words", &format!("{}:{}", f.name, lit), false);
+            if lit.trim().chars().any(|ch| ch.is_whitespace()) {
+                ctx.violate("C13.words", &format!("literal-with-blank:{}:{}", f.name, lit.replace(' ', "_")), &f.file, model::line_of(syn::spanned::Spanned::span(&c)),
+                    &format!("`{}` matches `{}` as one literal: the words are separate tokens, so `{}` written with two blanks, a line break or a comment between the words is rejected", f.name, lit, lit));
+            }
+        }
+    }
+    ctx.floor("C13.words/tag-literals", sites, 100);
+}
+
 fn mandatory_whitespace(m: &Model, ctx: &mut Ctx) {
     let names = ["multispace1", "space1", "line_ending", "newline", "tab", "crlf"];
     let mut sites = 0;
@@ -804,7 +835,8 @@ fn mandatory_whitespace(m: &Model, ctx: &mut Ctx) {
             ctx.oblige("C13.mandatory", &key, true);
             // accepted shape: ... many0( alt( ( comment, [into_inner(] multispace1 [)] ) ) )
             let inner: Vec<&str> = chain.iter().map(|x| x.as_str()).filter(|x| *x != "into_inner").collect();
-            let ok = inner.len() >= 2 && inner[inner.len() - 1] == "alt" && ["many0", "many0_count", "fold_many0"].contains(&inner[inner.len() - 2]);
+            // many1(alt((comment, multispace1))) demands *some* trivia, which a comment alone satisfies (between two words)
+            let ok = inner.len() >= 2 && inner[inner.len() - 1] == "alt" && ["many0", "many0_count", "fold_many0", "many1", "many1_count"].contains(&inner[inner.len() - 2]);
             if !ok {
                 ctx.violate("C13.mandatory", &format!("whitespace-required:{}", key), &f.file, line,
                     &format!("`{}` in `{}` (under {}) demands at least one whitespace character at this place: a layout with no blank there — a comment or the next token directly after the previous one — is rejected although the tokens are separable", name, f.name, if chain.is_empty() { "no combinator".to_string() } else { chain.join("(") }));
